@@ -864,7 +864,7 @@ pub fn check_stream<C: Crate>(cx: &Ctx, sc: &StreamCase) -> bool {
             };
             let kd = kind(e.without_snippet());
             run.observe("error_kinds", &kd);
-            let Some(subs) = C::sub_errors(e.without_snippet()) else {
+            let Some(subs) = C::sub_errors(e.without_snippet()).filter(|_| kd == C::MULTI_KIND) else {
                 cx.vio(
                     &format!("C18:stream:expected-validation-errors:got-{kd}"),
                     en.name,
